@@ -61,7 +61,7 @@ func (isn *InlineSchemaNamer) Name(key string, schema *spec.Schema, aschema *Ana
 		// NOTE: this is important if such referers use arbitrary JSON pointers.
 		an := New(isn.Spec)
 		for k, v := range an.references.allRefs {
-			if strings.HasPrefix(v.String(), key+"/") {
+			if _, inside := pointsInside(v, key); inside {
 				// points inside the rewritten schema: re-pointed below, once the schema is saved
 				continue
 			}
@@ -100,13 +100,18 @@ func (isn *InlineSchemaNamer) Name(key string, schema *spec.Schema, aschema *Ana
 		//
 		// NOTE: such anonymous JSON pointers may be introduced when name conflicts are resolved.
 		for k, v := range New(isn.Spec).references.allRefs {
-			if !strings.HasPrefix(v.String(), key+"/") {
+			below, inside := pointsInside(v, key)
+			if !inside {
 				continue
 			}
 
 			debugLog("found a $ref inside a rewritten schema: %s points to %s", k, v.String())
-			if err := replace.UpdateRef(isn.Spec, k,
-				spec.MustCreateRef(newPath+strings.TrimPrefix(v.String(), key))); err != nil {
+			moved, err := spec.NewRef(newPath + below)
+			if err != nil {
+				return ErrAtKey(k, err)
+			}
+
+			if err := replace.UpdateRef(isn.Spec, k, moved); err != nil {
 				return err
 			}
 		}
@@ -134,6 +139,23 @@ func (isn *InlineSchemaNamer) Name(key string, schema *spec.Schema, aschema *Ana
 	}
 
 	return nil
+}
+
+// pointsInside tells whether a $ref points strictly inside the schema located at key,
+// and yields the JSON pointer from that schema down to the target.
+//
+// NOTE: a key holds the actual JSON pointer tokens, whereas a rendered $ref is URL-escaped (e.g. "{id}" in a path).
+func pointsInside(ref spec.Ref, key string) (string, bool) {
+	target := ref.String()
+	if unescaped, err := url.PathUnescape(target); err == nil {
+		target = unescaped
+	}
+
+	if !strings.HasPrefix(target, key+"/") {
+		return "", false
+	}
+
+	return strings.TrimPrefix(target, key), true
 }
 
 // uniqifyName yields a unique name for a definition
